@@ -75,7 +75,10 @@ CHECKS = {
              'sequential blocks, parallel blocks, loops (0,1,2,let) and a macro; TLC computes DiscoverRule (the bracket rule '
              'written declaratively on the flat order) and validates accept/reject, the number of subcircuits and that the '
              'error message names a violated rule. Every second program is also executed on a backend object that has executed '
-             'another program before (site run_shared) and judged exactly like a run on a fresh backend.',
+             'another program before (site run_shared) and judged exactly like a run on a fresh backend. The discovery walk itself is '
+             'trace-validated through hook H2: one event per gate statement met, with the walker\'s state (a trace open?, subcircuits '
+             'closed so far) before it handles the statement; the events must be the fold of the discovery machine over the flat '
+             'order - a prefix of it when the program is rejected (discover_trace).',
         note='Bounded to <= 3 (quick) / 5 (thorough) nodes; message families are mapped to rules by literal patterns.',
         design='5/C12', technique='TLA+ declarative bracket rule + TLC-enumerated placements replayed into run_jaqal_circuit + TLC validation'),
     'C15': dict(
